@@ -58,6 +58,8 @@ def branchExcSendCounts : List (Nat × List Nat) := [(3, [1]), (4, [1]), (5, [1]
 def helperSendCounts : List (List Nat) := [[1], [1], [1], [1]]
 /-- SFTPServer._read_folder: the count field of the NAME packet and the entries emitted come from the same list, one (filename, longname, attrs) triple per element, unconditionally (AST) -/
 def readdirCountMatchesEntries : Bool := true
+/-- SFTPClient.listdir_iter re-initialises the list of awaited request ids (`nums`) inside its round loop (AST) -/
+def listdirIterResetsBatch : Bool := true
 /-- no method of SFTPServer calls Message.add()/add_adaptive_int(): request ids, counts and codes are written with add_int (4 bytes) whatever their value (AST) -/
 def responsesUseFixedWidthFields : Bool := true
 /-- SFTPFile._async_response: a pipelined write's answer is recognised by `num in self._reqs` (the whole collection) and exactly that number is removed (AST) -/
